@@ -236,7 +236,7 @@ func rewriteFile(src, dst, mod string, rep *report) (bool, error) {
 		return false, nil
 	}
 	var buf bytes.Buffer
-	cfg := printer.Config{Mode: printer.SourcePos | printer.TabIndent | printer.UseSpaces, Tabwidth: 8}
+	cfg := printer.Config{Mode: printer.TabIndent | printer.UseSpaces, Tabwidth: 8}
 	if err := cfg.Fprint(&buf, fset, f); err != nil {
 		return false, err
 	}
